@@ -56,38 +56,42 @@ func relFields(pth core.Path) string {
 	return strings.Join(pth.Fields, ".")
 }
 
-// wrapSites lists Encrypt (enc=true) or Decrypt calls in fn with their data
+// wrapSites lists Encrypt (enc=true) or Decrypt calls in fn - and in module
+// helpers / local closures it calls, once per call chain - with their data
 // and AAD operands rendered relative to their record.
 func wrapSites(fn *ssa.Function, enc bool) []wrapSite {
 	var out []wrapSite
-	for _, ci := range core.AllCalls(fn) {
-		call, ok := ci.(*ssa.Call)
+	sites := core.DeepFind(fn, core.MaxSummaryDepth, func(in ssa.Instruction) bool {
+		call, ok := in.(*ssa.Call)
 		if !ok {
-			continue
+			return false
 		}
 		eff, ok := core.WrapperMethod(call.Common())
-		if !ok || (eff == core.EffWrap) != enc {
-			continue
-		}
-		ws := wrapSite{call: call}
-		data := call.Common().Args[1]
-		if enc {
-			ws.data = relFields(core.PathOf(data))
-		} else {
-			// data is a BlobInfo unmarshalled from a record field
-			ws.data = blobSource(fn, core.Strip(data))
-		}
-		if aad := aadOperand(call); aad != nil {
-			ap := core.PathOf(aad)
-			ws.aad = relFields(ap)
-			ws.aadOK = len(ap.Fields) > 0
-			if len(ap.Fields) == 0 {
-				ws.aad = core.ValueName(ap.Root)
+		return ok && (eff == core.EffWrap) == enc
+	})
+	for _, site := range sites {
+		call := site.Instr.(*ssa.Call)
+		site.In(func() {
+			ws := wrapSite{call: call}
+			data := call.Common().Args[1]
+			if enc {
+				ws.data = relFields(core.PathOf(data))
+			} else {
+				// data is a BlobInfo unmarshalled from a record field
+				ws.data = blobSource(site.Fn, core.Strip(data))
 			}
-		} else {
-			ws.aad = "<none>"
-		}
-		out = append(out, ws)
+			if aad := aadOperand(call); aad != nil {
+				ap := core.PathOf(aad)
+				ws.aad = relFields(ap)
+				ws.aadOK = len(ap.Fields) > 0
+				if len(ap.Fields) == 0 {
+					ws.aad = core.ValueName(ap.Root)
+				}
+			} else {
+				ws.aad = "<none>"
+			}
+			out = append(out, ws)
+		})
 	}
 	return out
 }
